@@ -498,6 +498,20 @@ fn code_bytes(code: u32, len: u8) -> Vec<u8> { (0..len).rev().map(|i| (code >> (
 /// byte strings over the mapped codes (plus a few with unmapped bytes)
 fn gen_inputs(r: &mut Rng, defs: &[Def]) -> Vec<(Vec<u8>, Vec<(u32, u8)>)> {
     let mut out = vec![];
+    // raw strings: mapped codes interleaved with arbitrary bytes (unmapped codes, 4-byte flush, trailing partial code);
+    // an empty code list marks them as correspondence-only
+    for _ in 0..2 {
+        let k = 1 + r.usize(6);
+        let mut bytes = vec![];
+        for _ in 0..k {
+            if r.chance(1, 2) {
+                let d = r.pick(defs);
+                let c = d.lo() + if d.hi() > d.lo() { (r.next() as u32) % (d.hi() - d.lo() + 1) } else { 0 };
+                bytes.extend(code_bytes(c, d.len()));
+            } else { let n = 1 + r.usize(5); bytes.extend(r.bytes(n)); }
+        }
+        out.push((bytes, vec![]));
+    }
     for _ in 0..3 {
         let k = 1 + r.usize(8);
         let mut bytes = vec![]; let mut codes = vec![];
@@ -583,6 +597,7 @@ fn check_case(c: &mut Ctx, r: &mut Rng, stream: &str, secs: &[Sec], st: Stats, s
     }
     // ---- oracle: decoding of strings of mapped, prefix-free codes
     for (k, ((bytes, codes), d)) in inputs.iter().zip(real.decodes.iter()).enumerate() {
+        if codes.is_empty() { c.count("decode.raw_bytes"); if matches!(d, Ok(Ok(s)) if s.contains('\u{FFFD}')) { c.count("decode.raw_with_replacement"); } continue; }
         let prefix_free = codes.iter().all(|(code, len)| (1..*len).all(|l| defines(&defs, code >> (8 * (*len - l) as u32), l).is_none()));
         if !prefix_free { c.count("decode.not_prefix_free"); continue; }
         let targets: Vec<Option<Option<Vec<u16>>>> = codes.iter().map(|(code, len)| defines(&defs, *code, *len)).collect();
@@ -678,7 +693,13 @@ fn malformed_case(c: &mut Ctx, r: &mut Rng) {
     let n_edit = 1 + r.usize(2);
     for _ in 0..n_edit {
         let pos = start + r.usize(text.len() - start);
-        match r.below(4) {
+        match r.below(7) {
+            4 => { // drop one hex byte of a <..> token (code length mismatch, odd-length target …)
+                if let Some(q) = (pos..text.len().saturating_sub(2)).find(|&q| text[q] == b'<' && text[q + 1].is_ascii_hexdigit()) { text.remove(q + 1); text.remove(q + 1); } }
+            5 => { // duplicate one hex byte of a <..> token
+                if let Some(q) = (pos..text.len().saturating_sub(2)).find(|&q| text[q] == b'<' && text[q + 1].is_ascii_hexdigit()) { let (a, b) = (text[q + 1], text[q + 2]); text.insert(q + 1, b); text.insert(q + 1, a); } }
+            6 => { // remove a whole run of blanks
+                if let Some(q) = (pos..text.len()).find(|&q| text[q] == b' ' || text[q] == b'\t') { while q < text.len() && (text[q] == b' ' || text[q] == b'\t') { text.remove(q); } } }
             0 => { text.remove(pos); }
             1 => { let b = *r.pick(b"<>[] \n0aG%/"); text.insert(pos, b); }
             2 => { text[pos] = *r.pick(b"<>[] \n0aGf"); }
@@ -702,6 +723,75 @@ fn malformed_case(c: &mut Ctx, r: &mut Rng) {
     }
 }
 
+/// one bfchar / bfrange line written at (and just beyond) the edges of the grammar
+fn quirky_line(r: &mut Rng, q: u64) -> (bool, String) {
+    let t = |u: u16| format!("{:04x}", u);
+    let many = |n: usize| (0..n).map(|i| format!("{:04X}", 0x4E00 + i)).collect::<String>();
+    match q {
+        0 => (false, "<10> <11> [<0041><0042>]\n".into()),                 // array elements touching
+        1 => (false, "<10> <11> [<0041>\t<0042>]\n".into()),               // tab separator
+        2 => (false, "<10> <11> [<0041>\n<0042>]\n".into()),               // newline inside an array
+        3 => (false, "<10> <11> [ ]\n".into()),                            // empty array
+        4 => (false, "<10> <11> [<0041> <0042> <0043>]\n".into()),          // array longer than the range
+        5 => (false, format!("<20> <21> <{} {}\n{} % c\n>\n", t(0x41), t(0x42), t(0x43))),  // white space / comment inside a target
+        6 => (true, "<20> < 0041>\n".into()),                              // blank after '<'
+        7 => (true, "<0000000001> <0041>\n".into()),                       // 5-byte code
+        8 => (true, "<> <0041>\n".into()),                                 // empty code
+        9 => (true, format!("<30> <{}>\n", many(257))),                    // 257 units
+        10 => (true, format!("<30> <{}>\n", many(256))),                   // 256 units
+        11 => (true, "<30> <0041><31> <0042>\n".into()),                   // no separator between two lines
+        12 => (true, "<30>\n<0041>\n".into()),                             // newline between code and target
+        13 => (false, "<0030> <31> <0041>\n".into()),                      // lo / hi of different length
+        14 => (true, "<30> <004>\n".into()),                               // odd number of hex digits
+        15 => (true, "<30> <00410>\n".into()),
+        16 => (false, "<30><32><00410042>% x\n".into()),                   // comment directly after the line
+        17 => (false, "<32> <30> <0041>\n".into()),                        // hi < lo: InvalidCodeRange
+        18 => (false, "<30> <32> [<0041>] \n".into()),                     // one-element array over a wider range
+        19 => (true, "<30>  \t <D83DDE00>  \r\n".into()),
+        20 => (false, "<30> <32> [<0041> <0042> <0043> ]\n".into()),
+        21 => (false, "<30> <32> [  <0041>  <0042>  <0043>]\n".into()),
+        22 => (true, "<3g> <0041>\n".into()),                              // not hex
+        _ => { let _ = r; (true, "<30> <0041> <0042>\n".into()) }          // a third token on a bfchar line
+    }
+}
+const N_QUIRKS: u64 = 24;
+
+/// grammar-boundary stream: a valid CMap with one quirky line; correspondence of accept/reject, lookups and stored runs
+fn grammar_case(c: &mut Ctx, r: &mut Rng, q: u64) {
+    let (is_char, line) = quirky_line(r, q);
+    let before = r.below(3); let after = r.below(3);
+    let mut body = String::new();
+    let (kw_b, kw_e) = if is_char { ("beginbfchar", "endbfchar") } else { ("beginbfrange", "endbfrange") };
+    body.push_str(&format!("{} {}\n", 1 + before + after, kw_b));
+    let mut filler = |r: &mut Rng, body: &mut String, k: u64| {
+        let code = 0x40 + k as u32 * 3;
+        let d = if is_char { ch(code, 1, &[0x61 + k as u16]) } else { rg(code, code + 1, 1, &[&[0x61 + k as u16]]) };
+        render_def(r, &d, body);
+    };
+    for k in 0..before { filler(r, &mut body, k); }
+    body.push_str(&line);
+    for k in 0..after { filler(r, &mut body, 10 + k); }
+    body.push_str(&format!("{}\n", kw_e));
+    let text = format!("/CIDInit /ProcSet findresource begin\n12 dict begin\nbegincmap\n/CMapType 2 def\n{}endcmap\nCMapName currentdict /CMap defineresource pop\nend\nend\n", body).into_bytes();
+    let mut queries: Vec<(u32, u8)> = vec![];
+    for code in [0x0f, 0x10, 0x11, 0x12, 0x1f, 0x20, 0x21, 0x22, 0x2f, 0x30, 0x31, 0x32, 0x33, 0x40, 0x41, 0x42, 0x5e, 0x5f] { queries.push((code, 1)); }
+    queries.push((0x30, 2)); queries.push((1, 4));
+    let (doc, font) = make_doc(r, &text);
+    let qtok: String = queries.iter().map(|(code, len)| format!(" {}", code_tok(*code, *len))).collect();
+    let req = format!("cmap_text_get {} q{}", hex_tok(&text), qtok);
+    c.nontrivial(&req);
+    c.count("grammar.cases");
+    match run_real(&doc, &font, &queries, &[], &[]) {
+        Err((site, msg)) => c.oracle_fail(&format!("panic-in-parse@{}", site), &msg, json!({"cmap_text": String::from_utf8_lossy(&text)})),
+        Ok(None) => { c.count(&format!("grammar.q{}.rejected", q)); c.corr(req, "err".into()); }
+        Ok(Some(real)) => {
+            c.count(&format!("grammar.q{}.accepted", q));
+            c.corr(req, format!("ok{}", real.gets.iter().map(|g| format!(" {}", show_get(g))).collect::<String>()));
+            if let Some(runs) = real.runs.as_deref().and_then(runs_of_debug) { c.corr(format!("cmap_text_runs {}", hex_tok(&text)), runs); }
+        }
+    }
+}
+
 pub fn run(c: &mut Ctx) {
     if let Err((site, msg)) = guard(std::panic::AssertUnwindSafe(|| run_inner(c))) { eprintln!("harness panic at {}: {}", site, msg); std::process::exit(3); }
 }
@@ -710,8 +800,8 @@ fn run_inner(c: &mut Ctx) {
 overlapping/adjacent definitions in any order inside small windows of the code space incl. both ends) and random mapping tables rendered \
 with range merging/splitting; CMap text with random sectioning, white space, comments, hex case, metadata variants; lookups at every range \
 end +-1 and inside, other code lengths, unmapped codes; byte strings over mapped codes. Streams: single (single-unit targets only, strict), \
-isolated (non-single definitions touch nothing, strict), wild and table (anything; failures classified structurally), malformed (byte edits; \
-correspondence only). Non-trivial = every case; distinct by request text.".into();
+isolated (non-single definitions touch nothing, strict), wild and table (anything; failures classified structurally), malformed (byte / hex-byte / blank-run \
+edits) and grammar (24 lines at and beyond the edges of the grammar) — correspondence only. Non-trivial = every case; distinct by request text.".into();
     witnesses(c);
     for i in 0..c.n(500, 8000) {
         let Some(mut r) = c.case("single", i) else { continue };
@@ -740,5 +830,9 @@ correspondence only). Non-trivial = every case; distinct by request text.".into(
     for i in 0..c.n(300, 5000) {
         let Some(mut r) = c.case("malformed", i) else { continue };
         malformed_case(c, &mut r);
+    }
+    for i in 0..c.n(3 * N_QUIRKS, 40 * N_QUIRKS) {
+        let Some(mut r) = c.case("grammar", i) else { continue };
+        grammar_case(c, &mut r, i % N_QUIRKS);
     }
 }
